@@ -19,7 +19,9 @@ import (
 var c04Names = func() []string {
 	out := []string{"x", "xy", "y", "x y", "xx", "dir/x", "dirx", "dir/sub/x", "dir/sub/y", "dir2/x", "dir2/sub/x", "a", "ab", "b", "a_b", "dir/ab", "z.txt", "dir/z.txt",
 		// names that continue with bytes the content pool starts with (boundary between path and content)
-		"f0", "f", "x0", "x01", "xhello", "dir/x1"}
+		"f0", "f", "x0", "x01", "xhello", "dir/x1",
+		// a backslash is an ordinary character of a name here: "dir2\\x" is a file next to the directory dir2
+		"dir2\\x", "dir2\\sub\\x", "dir\\x"}
 	for i := 0; i < 30; i++ {
 		out = append(out, fmt.Sprintf("f%02d", i))
 	}
